@@ -384,7 +384,7 @@ pub fn gen_case(seed: u64, shard: u64, run: u64, t: &Tier) -> Option<Case> {
         base_p: 0.7,
         max_env: if knobs.chance(0.06) { 12 } else { 3 },
         max_sub: t.max_sub,
-        limits: if knobs.chance(0.3) { LimitKind::None } else if knobs.chance(0.5) { LimitKind::Narrow } else { LimitKind::Wide },
+        limits: if knobs.chance(0.25) { LimitKind::None } else { *knobs.pick(&[LimitKind::Narrow, LimitKind::Narrow, LimitKind::Wide, LimitKind::Wrapping]) },
         ctor: Ctor::Direct,
         touch_only: false,
         sparse: knobs.chance(0.7),
@@ -435,6 +435,21 @@ pub fn gen_case(seed: u64, shard: u64, run: u64, t: &Tier) -> Option<Case> {
         };
         from[j] = initial[j] - d;
         to[j] = initial[j] + if w.chance(0.8) { d } else { w.range_f64(0.01, 1.5) };
+    }
+    // coincidences and far-away spellings of the target values
+    for j in 0..6 {
+        match w.below(30) {
+            0 => from[j] = initial[j],
+            1 => to[j] = initial[j],
+            2 => {
+                from[j] = initial[j];
+                to[j] = initial[j];
+            }
+            // the same angle two or three turns away (legal iff it is legal modulo a full turn)
+            3 => to[j] += 4.0 * std::f64::consts::PI * if w.chance(0.5) { 1.0 } else { -1.0 },
+            4 => from[j] -= 6.0 * std::f64::consts::PI * if w.chance(0.5) { 1.0 } else { -1.0 },
+            _ => {}
+        }
     }
     let mut cfgs = Vec::new();
     for s in 0..t.schedules {
